@@ -255,7 +255,7 @@ def gen_api_unit(rng):
         cfg["E.SOXR_USE_SIMD"] = cl.hexs(rng.choice(["0", "1"]))
     ops = [cl.create_line(cfg)]
     osplit = bool(cfg["otype"] & cl.SPLIT)
-    ratio = ir / orr if orr else 1.0
+    ratio = ir / orr if (orr and ir) else 2.0      # deferred configuration: the ratio comes later, through soxr_set_io_ratio
     for _ in range(4 + rng.below(22)):
         k = rng.below(22)
         if k < 2:
